@@ -9,17 +9,21 @@ Ordering information (instant ranks) is given here, by construction, never compu
 import json, os
 
 instants = [  # rank = index+1 ; strictly increasing
+    "1492-10-12T08:00:00Z",  # before 1677-09-21: time.UnixNano() is not defined (wraps) for this instant
     "1970-01-01T00:00:00Z",  # the Unix epoch: UnixNano() = 0, the zero value of every encoding
     "2019-03-01T00:00:00Z",
     "2020-01-01T00:00:00Z",
     "2020-06-01T12:30:00.5Z",
     "2021-11-11T11:11:11.000000011Z",
+    "2525-07-04T12:00:00.123456789Z",  # after 2262-04-11: UnixNano() not defined either
 ]
 # concrete spellings of instants: (rank, text). The first spelling of each rank is the canonical one.
 spellings = [(i + 1, t) for i, t in enumerate(instants)] + [
-    (3, "2020-01-01T02:00:00+02:00"),  # same instant as rank 3, other zone
-    (4, "2020-06-01T05:30:00.5-07:00"),
-    (4, "2020-06-01T18:00:00.5+05:30"),  # a non-whole-hour offset of the same instant
+    (4, "2020-01-01T02:00:00+02:00"),  # same instant as rank 4, other zone
+    (5, "2020-06-01T05:30:00.5-07:00"),
+    (5, "2020-06-01T18:00:00.5+05:30"),  # a non-whole-hour offset of the same instant
+    (1, "1492-10-12T10:00:00+02:00"),  # the out-of-range instants in another zone as well
+    (7, "2525-07-04T05:00:00.123456789-07:00"),
 ]
 
 nodes = [  # abstract = concrete
@@ -32,17 +36,19 @@ nodes = [  # abstract = concrete
 # abstract predicates: id, kind, rank
 preds = [
     {"id": "p", "kind": "imm", "n": 0},  # 1
-    {"id": "p", "kind": "tmp", "n": 3},  # 2
-    {"id": "p", "kind": "tmp", "n": 4},  # 3
+    {"id": "p", "kind": "tmp", "n": 4},  # 2
+    {"id": "p", "kind": "tmp", "n": 5},  # 3
     {"id": "q", "kind": "imm", "n": 0},  # 4
-    {"id": "q", "kind": "tmp", "n": 3},  # 5
-    {"id": "r", "kind": "tmp", "n": 2},  # 6
-    {"id": "q", "kind": "tmp", "n": 5},  # 7
-    {"id": "p", "kind": "tmp", "n": 2},  # 8
+    {"id": "q", "kind": "tmp", "n": 4},  # 5
+    {"id": "r", "kind": "tmp", "n": 3},  # 6
+    {"id": "q", "kind": "tmp", "n": 6},  # 7
+    {"id": "p", "kind": "tmp", "n": 3},  # 8
     {"id": "r", "kind": "imm", "n": 0},  # 9  never stored
-    {"id": "p", "kind": "tmp", "n": 5},  # 10 never stored
+    {"id": "p", "kind": "tmp", "n": 6},  # 10 never stored
     {"id": "zz", "kind": "imm", "n": 0},  # 11 never stored
-    {"id": "p", "kind": "tmp", "n": 1},  # 12 anchored at the Unix epoch
+    {"id": "p", "kind": "tmp", "n": 2},  # 12 anchored at the Unix epoch
+    {"id": "p", "kind": "tmp", "n": 1},  # 13 anchored in 1492 (outside the UnixNano range)
+    {"id": "q", "kind": "tmp", "n": 7},  # 14 anchored in 2525 (outside the UnixNano range)
 ]
 # concrete predicate spellings: abs index + spelling index (0 for immutable)
 cpreds = []
@@ -69,6 +75,9 @@ objs = [
     {"kind": "lit", "type": "text", "val": "1"},  # 11
     {"kind": "node", "ref": 4},  # 12 never stored
     {"kind": "pred", "ref": 4},  # 13 "q"@[] never stored as object
+    {"kind": "lit", "type": "float64", "val": "0.3"},  # 14
+    {"kind": "lit", "type": "float64", "val": "0.30000000000000004"},  # 15 = 0.1+0.2: equal to 14 in the first 16 decimals
+    {"kind": "pred", "ref": 13},  # 16 "p"@[1492] as object
 ]
 
 # triples (s, p, o) by abstract index. The tour universes are prefixes (quick: 4, thorough: 6).
@@ -90,9 +99,14 @@ triples = [
     (2, 1, 1),  # 15 b p@[] b
     (3, 2, 5),  # 16 c p@[i2] p@[i2]
     (1, 2, 1),  # 17 a p@[i2] b
+    (1, 13, 1),  # 18 a p@[1492] b    stored in the +02:00 spelling
+    (2, 14, 7),  # 19 b q@[2525] 1^^int64
+    (1, 4, 14),  # 20 a q@[] 0.3
+    (1, 4, 15),  # 21 a q@[] 0.30000000000000004   (same subject and predicate, objects that agree in 16 decimals)
+    (3, 14, 16),  # 22 c q@[2525] p@[1492]
 ]
 # triples stored with a non-canonical spelling of their predicate's anchor: triple index -> spelling text
-stored_spelling = {7: "2020-06-01T05:30:00.5-07:00", 12: "2020-01-01T02:00:00+02:00"}
+stored_spelling = {7: "2020-06-01T05:30:00.5-07:00", 12: "2020-01-01T02:00:00+02:00", 18: "1492-10-12T10:00:00+02:00"}
 
 u = {
     "instants": instants,
